@@ -1,4 +1,6 @@
 import BoolFn.Props.C12
+import BoolFn.Spec.Printed
+import BoolFn.Proofs.PrintLex
 /-! # C14 — Printing an expression and parsing the text gives the expression back
 
 The text form of any expression whose variable names are plain identifiers other than the reserved
@@ -7,34 +9,15 @@ an expression denoting the same function over the same variables. When every con
 disjunction has at least two operands the parsed expression is structurally identical to the original.
 
 `Display` writes `true`/`false`, the name, `!(…)`, and fully parenthesised n-ary nodes joined by
-` & ` / ` | `. Proved here at *token level*: the token list the printed text stands for (`toks e`)
-derives `norm e` in the grammar, where `norm` replaces a one-operand conjunction/disjunction by its
-operand; `norm e` denotes the same function over the same variables, and is `e` itself when every
-n-ary node has at least two operands. That the printed *characters* lex to `toks e` for identifier-safe
-names is checked by the correspondence on the real `to_string`/`from_str` (character-level lemma not
-part of this file: partial). -/
+` & ` / ` | `. Two layers: the printed *characters* are tokenized to the token list `toks e`
+(`printed_text_lexes`, for names that are plain identifiers other than the reserved words — `plainName`:
+non-empty, identifier characters only, not equal to a word token up to the tokenizer's case folding);
+and `toks e` derives `norm e` in the grammar, where `norm` replaces a one-operand
+conjunction/disjunction by its operand; `norm e` denotes the same function over the same variables,
+and is `e` itself when every n-ary node has at least two operands. `roundtrip` and `roundtrip_exact`
+are the two sentences of the property on strings. -/
 namespace BoolFn.C14
 open BoolFn BoolFn.Spec
-
-/-- operands joined by a separator token -/
-def joinToks (sep : Tok) : List (List Tok) → List Tok
-  | [] => []
-  | [g] => g
-  | g :: gs => g ++ sep :: joinToks sep gs
-
-mutual
-/-- the tokens of the printed form -/
-def toks : Expr String → List Tok
-  | .const true => [.tt]
-  | .const false => [.ff]
-  | .lit n => [.lit n.toList]
-  | .not e => [.not, .paren (toks e)]
-  | .and es => [.paren (joinToks .and (toksL es))]
-  | .or es => [.paren (joinToks .or (toksL es))]
-def toksL : List (Expr String) → List (List Tok)
-  | [] => []
-  | e :: es => toks e :: toksL es
-end
 
 mutual
 /-- what the parser returns: a one-operand level is the operand itself -/
@@ -47,18 +30,6 @@ def norm : Expr String → Expr String
 def normL : List (Expr String) → List (Expr String)
   | [] => []
   | e :: es => norm e :: normL es
-end
-
-mutual
-def nonEmptyNary : Expr String → Bool
-  | .const _ => true
-  | .lit _ => true
-  | .not e => nonEmptyNary e
-  | .and es => !es.isEmpty && nonEmptyNaryL es
-  | .or es => !es.isEmpty && nonEmptyNaryL es
-def nonEmptyNaryL : List (Expr String) → Bool
-  | [] => true
-  | e :: es => nonEmptyNary e && nonEmptyNaryL es
 end
 
 mutual
@@ -214,5 +185,34 @@ theorem exact (e : Expr String) (h : arityAtLeast2 e = true) (hne : nonEmptyNary
     parseTokens (toks e) = .ok e := by
   have := (roundtrip_tokens e hne).1
   rwa [norm_exact e h] at this
+
+
+/-- **character level**: `Display`'s text is tokenized to the token list it stands for -/
+theorem printed_text_lexes (e : Expr String) (hp : plainNames e = true) (hne : nonEmptyNary e = true) :
+    tokenize (printE e).toList = .ok (toks e) := tokenize_printed e hp hne
+
+/-- **C14, first sentence**: the text form of an expression over plain identifier names with non-empty
+    conjunctions and disjunctions is accepted by `from_str` and parses to an expression denoting the
+    same function over the same variables -/
+theorem roundtrip (e : Expr String) (hp : plainNames e = true) (hne : nonEmptyNary e = true) :
+    ∃ e', parse (printE e) = .ok e' ∧ (∀ ρ, e'.den ρ = e.den ρ) ∧ e'.vars = e.vars := by
+  refine ⟨norm e, ?_, (roundtrip_tokens e hne).2.1, (roundtrip_tokens e hne).2.2⟩
+  simp only [parse, printed_text_lexes e hp hne]
+  exact (roundtrip_tokens e hne).1
+
+/-- **C14, second sentence**: with at least two operands everywhere the parsed expression is the original -/
+theorem roundtrip_exact (e : Expr String) (hp : plainNames e = true) (h2 : arityAtLeast2 e = true)
+    (hne : nonEmptyNary e = true) : parse (printE e) = .ok e := by
+  simp only [parse, printed_text_lexes e hp hne]
+  exact exact e h2 hne
+
+/-- reserved words are excluded for a reason: the name `T` prints as `T` and reads back as the constant -/
+example : reserved ['T'] = true ∧ reserved ['o', 'R'] = true ∧ reserved ['1'] = true ∧
+    plainName ['1', '0'] = true ∧ plainName ['n', 'o', 't', 'a'] = true ∧ plainName ['t', '-'] = true := by decide
+
+/-- non-vacuity: a concrete expression with digit-led and keyword-prefixed names meets the hypotheses -/
+example : plainNames (.and [.lit "10", .or [.not (.lit "nota"), .lit "t1"]]) = true ∧
+    nonEmptyNary (.and [.lit "10", .or [.not (.lit "nota"), .lit "t1"]]) = true ∧
+    arityAtLeast2 (.and [.lit "10", .or [.not (.lit "nota"), .lit "t1"]]) = true := by decide
 
 end BoolFn.C14
